@@ -258,9 +258,9 @@ harness16! {
     }
 }
 
-harness16! {
+harness16l! {
     // bound: wrap_coord<f64>, D=1, lattice L (7-bit significand, |e|<=30) x v (12-bit significand, 2^-1000..2^38, ±0), |v|<=256 L
-    #[kani::unwind(4)]
+    #[kani::unwind(13)]
     fn c16_wrap_coord_lattice_1d() {
         let l = any_period();
         let v = any_value();
@@ -307,9 +307,9 @@ harness16! {
     }
 }
 
-harness16! {
+harness16l! {
     // bound: TopologicalSpace::canonicalize_point, D=2, axis 0 on the lattice, axis 1 fixed (3.5 mod 2); same lattice as wrap_coord
-    #[kani::unwind(5)]
+    #[kani::unwind(13)]
     fn c16_canonicalize_point_lattice_2d() {
         let l = any_period();
         let v = any_value();
@@ -326,9 +326,9 @@ harness16! {
     }
 }
 
-harness16! {
+harness16l! {
     // bound: ToroidalModel::canonicalize_point_in_place<f64> (hook), D=1, same lattice
-    #[kani::unwind(4)]
+    #[kani::unwind(13)]
     fn c16_model_canonicalize_lattice_1d() {
         let l = any_period();
         let v = any_value();
